@@ -101,13 +101,27 @@ func sortOf(t types.Type) Sort {
 		case u.Info()&types.IsBoolean != 0:
 			return SBool
 		case u.Info()&types.IsString != 0:
+			if opaqueStrings {
+				return aliasSort("OStr.")
+			}
 			return SString
 		case u.Kind() == types.UntypedNil, u.Kind() == types.UnsafePointer:
 			return SInt
 		default:
 			return SInt // integers, floats (treated exactly; see A-MATH)
 		}
-	case *types.Pointer, *types.Map, *types.Chan, *types.Signature:
+	case *types.Pointer:
+		if n, ok := u.Elem().(*types.Named); ok {
+			if _, isStruct := n.Underlying().(*types.Struct); isStruct {
+				return aliasSort("P." + n.Obj().Pkg().Name() + "_" + n.Obj().Name() + ".")
+			}
+		}
+		return SInt
+	case *types.Map:
+		nm := shortTypeName(t)
+		nm = strings.NewReplacer(".", "_", "/", "_").Replace(nm)
+		return aliasSort("M." + nm + ".")
+	case *types.Chan, *types.Signature:
 		return SInt
 	case *types.Slice:
 		return SSlice
@@ -123,6 +137,15 @@ func sortOf(t types.Type) Sort {
 		return SInt
 	}
 	return SInt
+}
+
+func aliasSort(name string) Sort {
+	srt := Sort(name)
+	if _, ok := aliasSorts[srt]; !ok {
+		aliasSorts[srt] = SInt
+		DefineDatatype(name, "(define-sort "+name+" () Int)")
+	}
+	return srt
 }
 
 func structDT(t types.Type) *structInfo {
@@ -173,7 +196,29 @@ func (si *structInfo) With(v *Term, i int, x *Term) *Term {
 	return si.Mk(fs)
 }
 
+// opaqueStrings: strings are modelled as integers (an injective naming of strings); only equality is available.
+// Enabled per function by the contract flag `opaque_strings` for code that only compares and stores strings.
+var opaqueStrings bool
+
+var strIDs = map[string]int64{"": 0}
+
+// GoStr is the term for a Go string constant in the current string mode.
+func GoStr(s string) *Term {
+	if !opaqueStrings {
+		return StrLit(s)
+	}
+	id, ok := strIDs[s]
+	if !ok {
+		id = int64(7000000 + len(strIDs))
+		strIDs[s] = id
+	}
+	return IntLit(id)
+}
+
 func zeroOfSort(s Sort) *Term {
+	if _, ok := aliasSorts[s]; ok {
+		return IntLit(0)
+	}
 	switch s {
 	case SInt:
 		return IntLit(0)
@@ -246,13 +291,13 @@ func boxFn(s Sort) (string, string) {
 	unbox := DeclFun("unbox_"+n, []Sort{SInt}, s)
 	if _, ok := TS.axioms[box]; !ok {
 		x := BoundVar("x", s)
-		AddAxiom(box, Forall([]*Term{x}, Eq(App(unbox, s, App(box, SInt, x)), x), []*Term{App(box, SInt, x)}))
+		AddInstAxiom(box, []*Term{x}, App(box, SInt, x), Eq(App(unbox, s, App(box, SInt, x)), x))
 	}
 	return box, unbox
 }
 
 func Box(v *Term) *Term {
-	switch v.Sort {
+	switch v.Sort.Base() {
 	case SInt:
 		return v
 	case SBool:
@@ -263,7 +308,7 @@ func Box(v *Term) *Term {
 }
 
 func Unbox(p *Term, s Sort) *Term {
-	switch s {
+	switch s.Base() {
 	case SInt:
 		return p
 	case SBool:
